@@ -84,9 +84,8 @@ class _Factory:
         return OpaqueMLP(theta=jnp.zeros((1,)), F=F)
 
 
-def create_pinn_ob(shared):
+def create_pinn_ob(shared, slices=(jnp.s_[0:1], jnp.s_[1:3])):
     din, h, m = 2, 2, 3
-    slices = (jnp.s_[0:1], jnp.s_[1:3])
     def build():
         fac = _Factory("L")
         res = create_PINN(jax.random.PRNGKey(0), ((fac, din, h), (jnp.tanh,), (fac, h, m)), "statio_PDE", dim_x=din,
@@ -103,10 +102,15 @@ def create_pinn_ob(shared):
             if wrong:
                 out = out[1:] + out[:1]
             if shared:
-                return [arr(lambda j, s=s: out[s][j[0]], (len(out[s]),)) for s in slices]
+                res = []
+                for s in slices:
+                    sel = out[s] if isinstance(s, slice) else [out[s]]       # an integer selects one component (trailing axis kept)
+                    res.append(arr(lambda j, sel=sel: sel[j[0]], (len(sel),)))
+                return res
             return [arr(lambda j: out[j[0]], (m,))]
         return dict(fn=fn, spec=spec, canary=lambda *z: spec(*z, wrong=True), inputs=[Inp("th", (1,)), Inp("x", (din,))])
-    return EqObligation(f"C10/create_PINN/ensures[shared_pinn_outputs={int(shared)}]", build,
+    desc = ",".join(f"{x.start}:{x.stop}" if isinstance(x, slice) else str(x) for x in slices)
+    return EqObligation(f"C10/create_PINN/ensures[shared_pinn_outputs={int(shared)},slices={desc}]", build,
                         [PM + "create_PINN", PM + "_MLP.__call__", PM + "_MLP.__post_init__", PM + "PINN.eval_nn"])
 
 
@@ -147,10 +151,10 @@ def spinn_ob(kind, d, r, m, B):
                          "jinns.utils._spinn:_SPINN.__call__", "jinns.utils._spinn:create_SPINN"])
 
 
-def hyper_ob(kind, d, m, hp_shapes, transforms):
+def hyper_ob(kind, d, m, hp_shapes, transforms, order=None):
     din = {"ODE": 1, "statio": d, "nonstatio": 1 + d}[kind]
     hid = 2
-    keys = ["a", "b"][:len(hp_shapes)]
+    keys = order or ["a", "b"][:len(hp_shapes)]
     nin = sum(int(np.prod(s)) if s else 1 for s in hp_shapes)
     def build():
         inner = _MLP(key=jax.random.PRNGKey(1), eqx_list=((eqx.nn.Linear, din, hid), (jnp.tanh,), (eqx.nn.Linear, hid, m)))
@@ -175,7 +179,8 @@ def hyper_ob(kind, d, m, hp_shapes, transforms):
         def spec(th, t, x, a, b, cpar, wrong=False):
             inp = {"ODE": [t[0]], "statio": pts(x), "nonstatio": [t[0]] + pts(x)}[kind]
             hin = []
-            for kk, v in zip(keys, (a, b)):
+            for kk in keys:                                  # in the order of the `hyperparams` list
+                v = {"a": a, "b": b}[kk]
                 hin += [v[idx] for idx in np.ndindex(*v.shape)] if v.shape else [v[()]]
             hv = [P.app("H", j, (), hin + [th[0]]) for j in range(total)]
             o = 0
@@ -195,7 +200,7 @@ def hyper_ob(kind, d, m, hp_shapes, transforms):
         return dict(fn=fn, spec=spec, canary=lambda *z: spec(*z, wrong=True),
                     inputs=[Inp("th", (1,)), Inp("t", (1,)), Inp("x", (max(d, 1),)), Inp("a", shapes[0]), Inp("b", shapes[1]),
                             Inp("cpar", ())])
-    return EqObligation(f"C10/HYPERPINN.eval_nn/ensures[{kind},d={d},m={m},hyperparams={hp_shapes},transforms={int(transforms)}]",
+    return EqObligation(f"C10/HYPERPINN.eval_nn/ensures[{kind},d={d},m={m},hyperparams={'/'.join(keys)}:{hp_shapes},transforms={int(transforms)}]",
                         build, ["jinns.utils._hyperpinn:HYPERPINN.eval_nn", "jinns.utils._hyperpinn:HYPERPINN._hyper_to_pinn",
                                 "jinns.utils._hyperpinn:_get_param_nb", PM + "PINN.__call__"])
 
@@ -215,6 +220,8 @@ def obligations(tier):
             obs.append(pinn_ob(kind, d, 3, tshape, jnp.s_[0:1], (3,), True, False))
     obs.append(create_pinn_ob(True))
     obs.append(create_pinn_ob(False))
+    obs.append(create_pinn_ob(True, (jnp.s_[0:2], jnp.s_[-1])))         # last component given as the integer -1
+    obs.append(create_pinn_ob(True, (jnp.s_[1], jnp.s_[-2:])))
     for kind in ("statio", "nonstatio"):
         for d in ((1, 2, 3) if kind == "statio" else (2, 3)):
             for (r, m, B) in ([(1, 1, 2), (2, 2, 2)] if tier == "quick" else [(1, 1, 1), (1, 1, 2), (2, 1, 2), (2, 2, 2), (1, 3, 2)]):
@@ -224,6 +231,7 @@ def obligations(tier):
     for kind, d in (("ODE", 0), ("statio", 2), ("nonstatio", 1)):
         obs.append(hyper_ob(kind, d, 1, [()], False))
         obs.append(hyper_ob(kind, d, 2, [(), (2,)], True))
+        obs.append(hyper_ob(kind, d, 1, [(), (2,)], False, order=["b", "a"]))     # list order differs from the dict's key order
         if tier == "thorough":
             obs.append(hyper_ob(kind, d, 2, [(2,), ()], False))
     return obs
